@@ -2,9 +2,11 @@
 // worker" all have a reason to call Receive.  The receiver blocks INSIDE its Initialized or Started
 // handler (a gate); meanwhile other goroutines send messages and ask for the actor to be stopped;
 // optionally the handler panics when the gate opens, so that the same happens around the restart.
-// Several goroutines spawn the same id at once.  Every Receive of the id - whatever receiver
-// instance it reaches - passes an entry/exit counter: an entry that finds another invocation
-// inside is an overlap, observed for certain (the other one is parked in the gate).
+// Several goroutines spawn the same id at once.  Every Receive of one actor (= of the receivers
+// produced for one Spawn call, restarts included) passes an entry/exit counter: an entry that finds
+// another invocation inside is an overlap, observed for certain (the other one is parked in the
+// gate).  A later Spawn call that finds the id free again (the first actor is unregistered before it
+// handles Stopped) makes ANOTHER actor; its Initialized may run next to the first one's Stopped.
 package c02
 
 import (
@@ -43,7 +45,7 @@ func runStart(c StartCase) (map[string]int, error) {
 		return nil, fmt.Errorf("%w: %v", errStartHarness, err)
 	}
 	var (
-		active  atomic.Int32
+		active  = make([]atomic.Int32, c.Spawners) // per Spawn call: one actor = one successful Spawn
 		mu      sync.Mutex
 		overlap string
 		log     []string
@@ -52,44 +54,47 @@ func runStart(c StartCase) (map[string]int, error) {
 		gateOut = make(chan struct{})
 		gated   atomic.Bool
 	)
-	producer := func() actor.Receiver {
-		mu.Lock()
-		incs++
-		inc := incs
-		mu.Unlock()
-		return recvFn(func(ctx *actor.Context) {
-			kind := fmt.Sprintf("%T", ctx.Message())
-			if n := active.Add(1); n > 1 {
-				mu.Lock()
-				if overlap == "" {
-					overlap = fmt.Sprintf("Receive(%s) of receiver #%d was entered while another Receive of the same actor was running; log so far: %v", kind, inc, log)
-				}
-				mu.Unlock()
-			}
+	producerOf := func(g int) actor.Producer {
+		return func() actor.Receiver {
+			active := &active[g]
 			mu.Lock()
-			log = append(log, fmt.Sprintf("%d:%s", inc, kind))
+			incs++
+			inc := incs
 			mu.Unlock()
-			if kind == "actor."+c.GateIn && gated.CompareAndSwap(false, true) {
-				close(gateIn)
-				<-gateOut
-				if c.Panic {
-					active.Add(-1)
-					panic("generated panic at the end of the gated handler")
+			return recvFn(func(ctx *actor.Context) {
+				kind := fmt.Sprintf("%T", ctx.Message())
+				if n := active.Add(1); n > 1 {
+					mu.Lock()
+					if overlap == "" {
+						overlap = fmt.Sprintf("Receive(%s) of receiver #%d was entered while another Receive of the same actor was running; log so far: %v", kind, inc, log)
+					}
+					mu.Unlock()
 				}
-			}
-			active.Add(-1)
-		})
+				mu.Lock()
+				log = append(log, fmt.Sprintf("%d:%s", inc, kind))
+				mu.Unlock()
+				if kind == "actor."+c.GateIn && gated.CompareAndSwap(false, true) {
+					close(gateIn)
+					<-gateOut
+					if c.Panic {
+						active.Add(-1)
+						panic("generated panic at the end of the gated handler")
+					}
+				}
+				active.Add(-1)
+			})
+		}
 	}
 	spawned := make(chan struct{})
 	var wg sync.WaitGroup
 	start := make(chan struct{})
 	for g := 0; g < c.Spawners; g++ {
 		wg.Add(1)
-		go func() {
+		go func(g int) {
 			defer wg.Done()
 			<-start
-			e.Spawn(producer, "s", actor.WithID("1"), actor.WithRestartDelay(time.Duration(c.DelayMs)*time.Millisecond), actor.WithMaxRestarts(3))
-		}()
+			e.Spawn(producerOf(g), "s", actor.WithID("1"), actor.WithRestartDelay(time.Duration(c.DelayMs)*time.Millisecond), actor.WithMaxRestarts(3))
+		}(g)
 	}
 	go func() { wg.Wait(); close(spawned) }()
 	close(start)
